@@ -65,6 +65,12 @@ fn near_misses(suffix: bool) -> Vec<(&'static str, bool)> {
         ("app_r2023-02-30_10-00-00.log", false),
         ("app_r2024-05-15_12-30-10.restart-abcd.log", false),
         ("app_r2024-05-15_12-30-10.restart-", false),
+        // files of another timestamp scheme (members of the family under that scheme only)
+        ("app_r2020-01-01_00-00-00.log", false),
+        ("app_2020-01-01_00-00-00.log", false),
+        // a well-formed restart extension followed by more text
+        ("app_r2020-01-01_00-00-00.restart-0000-copy.log", false),
+        ("app_r2020-01-01_00-00-00.restart-00000.log", false),
         ("app_rCURRENT.log.old", false),
         ("app__r00000.log", false),
         ("appr00000.log", false),
@@ -293,6 +299,8 @@ fn name_class(n: &str) -> &'static str {
         "app_r00043.log" | "app_r00043" => "symlink-to-directory-named-like-a-log-file",
         "app_r00044.log" | "app_r00044" => "named-pipe-named-like-a-log-file",
         "app_r2023-02-30_10-00-00.log" => "timestamp-shape-but-no-date",
+        "app_r2020-01-01_00-00-00.log" | "app_2020-01-01_00-00-00.log" => "other-timestamp-scheme",
+        "app_r2020-01-01_00-00-00.restart-0000-copy.log" | "app_r2020-01-01_00-00-00.restart-00000.log" => "restart-extension+text",
         "app_r9999-99-99_99-99-99.log" | "app_r2024-05-15_12-30-10.restart-abcd.log" | "app_r2024-05-15_12-30-10.restart-" => "timestamp-like",
         "app_r00000.log.d" => "directory",
         "app_r00001.log.gz.gz" | "app_r00007.gz" | "app_r00001.log.bak" | "app_rCURRENT.log.old" => "extra-extension",
